@@ -5,7 +5,8 @@ concrete codec (`KitModel/EncCodec`), and the line-protocol entry point used by
 
 ops (besides `ps`, `pst`, `rh` of `KitModel/EncDrv.lean`)
 * `caps` → `real=1`
-* `enc fk= np= wfk= kw= cph= keyname= plain=` → `doc=<hex>`: the specification encoder
+* `enc fk= np= wfk= kw= cph= keyname= plain=` → `doc=<hex>` (or `refuse=headerTooLong` when the
+  header exceeds `segSize`, as `encryptImpl`/`SignHeader` do): the specification encoder
   `specEncrypt` (README.md) over AES-GCM / ChaCha20-Poly1305 / HKDF / HMAC written in Lean.
 * `dec fk=<hex|none|wfk> keyname=<hex> data= caps= ewd= term=` → `out=<hex> term=<name>`:
   `decryptImpl` on the given source script; `fk` is what `UnwrapKeyFn` returned in the real run
@@ -46,7 +47,11 @@ def answerReal (l : Line) : Option String :=
       let plain ← l.hex? "plain"
       if !Kit.Enc.Codec.isAscii kn then pure "unmodelled=keyname-non-ascii"
       else if wfk.isEmpty then pure "unmodelled=wfk-empty"
-      else pure s!"doc={toHex (specEncrypt realCrypto realCodec P fk ⟨kn, kw, wfk, cph, np⟩ plain)}"
+      else
+        -- SignHeader's own limit, as in `encryptImpl`
+        let hdr := signHeader realCrypto realCodec P fk (realCodec.render ⟨kn, kw, wfk, cph, np⟩)
+        if hdr.length > P.segSize then pure s!"refuse=headerTooLong hdrlen={hdr.length}"
+        else pure s!"doc={toHex (specEncrypt realCrypto realCodec P fk ⟨kn, kw, wfk, cph, np⟩ plain)}"
       : Option String).getD "bad-request"
   | "dec" => some <| (do
       let r ← Drv.readerOf l
